@@ -134,8 +134,12 @@ def run(check, repo: Repo) -> None:
         else:
             kinds.append(f"?{t[:50]}")
     want = ["mask", "gaussian(optional)", "butterworth(optional)", "tie", "return obj2"]
-    check.decide(kinds == want, "C10-R1", "after the admissible-making step only: [0,1] mask, optional smoothing (excluded), slice tying as the last write, return",
-                 str(kinds), omod.line(ahc),
+    # slice tying is idempotent and keeps slices identical, so an additional (earlier) tie changes nothing the property speaks about; what is required is
+    # that the LAST write before the return is the tie (a per-slice mask or filter after it can make the slices differ again) and that nothing unknown runs
+    tied_last = len(kinds) >= 2 and kinds[-2] == "tie"
+    kinds_eff = [k for i, k in enumerate(kinds) if not (k == "tie" and i != len(kinds) - 2)] if tied_last else kinds
+    check.decide(kinds_eff == want, "C10-R1", "after the admissible-making step only: [0,1] mask, optional smoothing (excluded), slice tying as the last write, return",
+                 str(kinds), omod.line(ahc), definite=all(not k.startswith("?") for k in kinds) and not tied_last,
                  fail_detail=f"statements after the type block are {kinds}; expected {want}: an extra operation after the clamp/unit-modulus step (or tying that "
                              f"is not last) can break admissibility")
     check.advisory("C10-R1", "apply_hard_constraints: with apply_fov_mask the mask multiplies complex objects twice (amp·mask in the polar arm, then obj2 *= mask)",
